@@ -465,6 +465,42 @@ Section P.
     - reflexivity.
   Qed.
 
+  (* a delivery whose database write fails: the request stays, nothing outstanding is dropped,
+     nothing is counted as resolved; if the FIRST write fails the builder is unchanged *)
+  Lemma failed_delivery_keeps_request s d i bks : find_req (pending s) (H d) = Some bks ->
+    let s' := fst (on_data_fail H children s d i) in
+    snd (on_data_fail H children s d i) = RFail /\
+    find_req (pending s') (H d) <> None /\
+    (forall r, req_in (pending s) r -> req_in (pending s') r) /\
+    (forall bk, In bk bks -> req_in (pending s') (bk, H d)) /\
+    (forall c, db_has (dbs s) c = true -> db_has (dbs s') c = true) /\
+    resolved s' = resolved s.
+  Proof.
+    intros F. unfold on_data_fail. rewrite F. cbn [fst snd dbs pending resolved].
+    pose proof (fold_deliver d (H d) (firstn i bks) (dbs s) (pending s) (Some (H d))) as K.
+    cbn zeta in K. destruct K as (K1 & K2 & _).
+    assert (forall bk, In bk bks -> req_in (pending s) (bk, H d)) as RQ.
+    { intros bk G. exists bks. split; auto. now apply find_req_some. }
+    split; [reflexivity|]. split; [|split; [exact K2|split; [|split; [|reflexivity]]]].
+    - intros N. destruct bks as [|bk bks].
+      + (* a request without requester cannot be found dropped either: the key is still there *)
+        apply find_req_some in F.
+        assert (exists b2, In (H d, b2) (fst (snd (fold_left (deliver_one children d (H d)) (firstn i []) (dbs s, (pending s, Some (H d))))))) as [b2 I].
+        { destruct i; cbn; eauto. }
+        eapply find_req_none; eauto.
+      + destruct (K2 _ (RQ bk (or_introl eq_refl))) as [b2 [I _]]. cbn [snd] in I.
+        eapply find_req_none; eauto.
+    - intros bk G. apply K2. auto.
+    - intros c. rewrite !db_has_true. unfold db_get. rewrite K1. apply has_app_mono.
+  Qed.
+
+  Lemma failed_first_write_noop s d : find_req (pending s) (H d) <> None ->
+    on_data_fail H children s d 0 = (s, RFail).
+  Proof.
+    intros F. unfold on_data_fail. destruct (find_req (pending s) (H d)); [|congruence].
+    cbn. destruct s; reflexivity.
+  Qed.
+
   Lemma on_data_ignored s d : find_req (pending s) (H d) = None -> on_data s d = (s, RNoRequester).
   Proof. intros F. unfold Model_Builder.on_data. now rewrite F. Qed.
 
